@@ -226,3 +226,57 @@ func H_C14_govclock() {
 		nd.Assert(id+".keep", post.LastRewardChangeTime.Equal(a.LastRewardChangeTime))
 	}
 }
+
+// H_C14_govsettle: a governance weight change (MsgUpdateAlliance) affects only rewards received
+// afterwards: for every old weight in the asset's range - including exactly zero - and every new
+// weight that differs from it, the rewards pending in the distribution module for the module's stake
+// were settled (at the old weights) before the new weight was stored, a snapshot of the old weight
+// exists at the block height for every validator, and a rebalance is queued. Both assets are staked
+// on both validators and the other asset keeps a positive weight (so the settlement's weighted split
+// has a non-zero denominator; the all-zero case is the C05/C17 finding).
+func H_C14_govsettle() {
+	id := "C14.govsettle"
+	zero := nd.Choice("oldzero", 2) // 1: the old weight is exactly zero
+	e, _, a := decayState(math.LegacyOneDec(), false, true)
+	mod := e.Ak.GetModuleAddress(types.ModuleName)
+	b, _ := e.K.GetAssetByDenom(e.Ctx, Denoms[1])
+	b.TotalTokens, b.TotalValidatorShares = math.NewInt(1000), math.LegacyNewDec(1000)
+	_ = e.K.SetAsset(e.Ctx, b)
+	e.Bank.Fund(mod, Denoms[1], b.TotalTokens)
+	for v := 0; v < 2; v++ {
+		info, _ := e.K.GetAllianceValidatorInfo(e.Ctx, Vals[v])
+		info.TotalDelegatorShares = sdk.NewDecCoins(sdk.NewDecCoinFromDec(Denoms[0], math.LegacyNewDec(500)), sdk.NewDecCoinFromDec(Denoms[1], math.LegacyNewDec(500)))
+		info.ValidatorShares = sdk.NewDecCoins(sdk.NewDecCoinFromDec(Denoms[0], math.LegacyNewDec(500)), sdk.NewDecCoinFromDec(Denoms[1], math.LegacyNewDec(500)))
+		_ = e.K.SetValidatorInfo(e.Ctx, Vals[v], info)
+	}
+	if zero == 1 {
+		a.RewardWeight = math.LegacyZeroDec()
+		a.RewardWeightRange.Min = math.LegacyZeroDec()
+		_ = e.K.SetAsset(e.Ctx, a)
+	}
+	neww := nd.DecRange("m_w", "0", "10")
+	nd.Assume(nd.And(!neww.Equal(a.RewardWeight), a.RewardWeightRange.Min.LTE(neww), neww.LTE(a.RewardWeightRange.Max)))
+	msg := &types.MsgUpdateAlliance{Authority: e.Authority, Denom: Denoms[0], RewardWeight: neww, TakeRate: a.TakeRate,
+		RewardChangeRate: a.RewardChangeRate, RewardChangeInterval: a.RewardChangeInterval, RewardWeightRange: a.RewardWeightRange}
+	var err error
+	nd.Reach(id)
+	if !NoPanic(id, func() { _, err = keeper.NewMsgServerImpl(e.K).UpdateAlliance(e.Ctx, msg) }) {
+		return
+	}
+	nd.Assert(id+".ok", err == nil)
+	post, _ := e.K.GetAssetByDenom(e.Ctx, Denoms[0])
+	nd.Assert(id+".stored", post.RewardWeight.Equal(neww))
+	for v := 0; v < 2; v++ {
+		_, pending := e.Distr.Pending[string(mod)+"/"+string(Vals[v])]
+		nd.Assert(id+".settle", !pending)
+		var snap types.RewardWeightChangeSnapshot
+		bz, _ := e.Store.Get(types.GetRewardWeightChangeSnapshotKey(Denoms[0], Vals[v], 100))
+		nd.Assert(id+".snapshot", bz != nil)
+		if bz != nil {
+			e.Codec().MustUnmarshal(bz, &snap)
+			nd.Assert(id+".snapshot", snap.PrevRewardWeight.Equal(a.RewardWeight))
+		}
+	}
+	ok, _ := e.Store.Has(types.AssetRebalanceQueueKey)
+	nd.Assert(id+".rebalance", ok)
+}
